@@ -74,12 +74,6 @@ func (g *gen) strValue() string {
 			return rapid.StringOfN(rapid.SampledFrom([]rune{'a', 'b', 'c', ' ', '1', '2', '.', '-', 'é', '日', '\t'}), 0, 6, -1).Draw(g.t, "rs")
 		}
 		cn := strClassNames[g.pick(len(strClassNames), "strclass")]
-		if cn == "str.infword" && fw.Known("c01.str2num.infinity-word") {
-			continue
-		}
-		if cn == "str.uniblank" && fw.Known("c01.str2num.unicode-blank") {
-			continue
-		}
 		vs := strClasses[cn]
 		return vs[g.pick(len(vs), "strval")]
 	}
@@ -321,14 +315,6 @@ func (g *gen) comparison(d int) *xp.E {
 		// node-set against boolean is a stated grey zone: not generated
 		if (lk == 2 && rk >= 3) || (rk == 2 && lk >= 3) {
 			continue
-		}
-		if lk == 5 || rk == 5 {
-			if lk == 5 && rk != 5 && fw.KnownQuiet("c01.leaflist.left") {
-				continue
-			}
-			if fw.Known("c01.leaflist.not-existential") {
-				continue
-			}
 		}
 		return xp.Bin(op, g.cmpOperand(lk, d-1), g.cmpOperand(rk, d-1))
 	}
